@@ -143,6 +143,7 @@ def check_c04(run: Run, prog: Program) -> None:
     kinds.rule_K2e(run, prog)
     n5 = kinds.rule_K5(run, prog)
     kinds.rule_K6(run, prog)
+    run.stats["tolerance_arguments"] = kinds.rule_K8(run, prog)
     run.floor("concrete collection classes", n1, 5)
     run.floor("element access obligations", n2, 5)
     run.stats.update({"collection_classes": n1, "element_access": n2, "empty_buffers": n5})
@@ -195,6 +196,9 @@ def check_c06(run: Run, prog: Program) -> None:
     )
     n4 = kinds.rule_K4(run, prog)
     kinds.rule_K4m(run, prog)
+    from geolint import variance
+
+    run.stats["matrix_form_actions"] = variance.rule_V5(run, prog)  # an override that replaces the generic action must still be the group action
     n3 = kinds.rule_K3(run, prog, family=prog.cls("TransformationTensor"))
     run.floor("__apply__ implementations and derived caches", n4, 6)
     run.stats.update({"apply_obligations": n4, "reconstruction_obligations": n3})
@@ -287,7 +291,8 @@ def check_c02(run: Run, prog: Program) -> None:
         "decides the structural half: LinearDependenceError and NotCoplanar are raised somewhere reachable from join, meet, "
         "Point.join, Subspace.meet/join, Line(p, q) and Plane(...); the zero test reads the contraction before it is normalised or "
         "returned (validate before use); in the collection case the mask passed is the tested array; nothing inside the entry points' "
-        "own call tree intercepts the error. NOT decided: 'exactly when' - the tolerance arithmetic of is_zero and the condition itself."
+        "own call tree intercepts the error; the tolerance of a zero test in that call tree does not depend on a whole-array reduction (which "
+        "would make the verdict for one position of a collection depend on the others). NOT decided: 'exactly when' - the tolerance arithmetic of is_zero and the condition itself."
     )
     entries = ["join", "meet", "PointTensor.join", "SubspaceTensor.meet", "SubspaceTensor.join", "LineTensor.__init__", "PlaneTensor.__init__"]
     s1 = _error_rules(run, prog, "LinearDependenceError", entries, payload=True)
@@ -296,6 +301,15 @@ def check_c02(run: Run, prog: Program) -> None:
     run.stats["callgraph"] = cg.stats
     run.stats["raise_sites"] = len(s1) + len(s2)
     run.floor("raise sites of the documented errors", len(s1) + len(s2), 2)
+    # 'raised exactly for the dependent positions': the tolerance of the zero test must not couple the positions of a collection
+    from geolint import kinds
+
+    reach: set[str] = set()
+    for e in entries:
+        f = prog.find_func(e)
+        if f is not None:
+            reach |= cg.reachable(f)
+    run.stats["tolerance_arguments"] = kinds.rule_K8(run, prog, only=reach)
 
 
 # ================================================================================================ C11
@@ -336,6 +350,7 @@ def check_c07(run: Run, prog: Program) -> None:
     )
     n2 = variance.rule_V2(run, prog)
     n3 = variance.rule_V3(run, prog)
+    run.stats["matrix_form_actions"] = variance.rule_V5(run, prog)
     from geolint import kinds
 
     kinds.rule_K4m(run, prog)
